@@ -199,7 +199,14 @@ fn ledger_pre_close(fd: i32) -> Option<bool> {
             return None;
         }
         h.set(true);
-        let known = LEDGER.lock().unwrap().open.remove(&fd).is_some();
+        let mut known = LEDGER.lock().unwrap().open.remove(&fd).is_some();
+        if !known {
+            // memfd_create is issued through syscall(2), which is not interposed: a descriptor that names a memfd is the
+            // library's (nothing else in the harness creates one)
+            if let Ok(l) = std::fs::read_link(format!("/proc/self/fd/{}", fd)) {
+                known = l.to_string_lossy().starts_with("/memfd:");
+            }
+        }
         h.set(false);
         Some(known)
     })
